@@ -83,6 +83,41 @@ def run(tier):
         nsp += len(acts)
         blocks.append((cfg, acts))
     c.notes.append("T1c: %d spellings of valid lines with sub-groups" % nsp)
+    # T1d: several arguments name ONE argument in their constraints, each with another form of its key (complete specification,
+    #      short key only, long key only): the partner is one argument whatever it is called; all orders of a valid line
+    nsame = 0
+    for _ in range(40 if tier == "quick" else 1200):
+        cfg = g.cfg(nargs=g.r.randint(5, 7), kinds=["flag", "flag", "int"], constraints=False, allow_pos=False)
+        used_s = {a["s"] for a in cfg["args"]}
+        used_l = {tuple(a["l"]) for a in cfg["args"]}
+        for n_, x in enumerate(cfg["args"]):
+            x["mand"] = False; x["card"] = {"t": "none", "a": 0, "b": 0}
+            if not x["s"]:
+                x["s"] = next(ord(ch) for ch in "ABCDEFGHJK" if ord(ch) not in used_s); used_s.add(x["s"])
+            if not x["l"]:
+                x["l"] = next(T(w) for w in ("first", "second", "third", "fourth", "fifth", "sixth", "seventh") if tuple(T(w)) not in used_l); used_l.add(tuple(x["l"]))
+        a, a2, a3, cc, dd = g.r.sample(range(1, len(cfg["args"]) + 1), 5)
+        forms = g.r.sample([0, 1, 2], 3)
+        cfg["args"][a - 1]["req"] = [cc]; cfg["args"][a - 1]["cspell"] = forms[0]
+        cfg["args"][a2 - 1]["req"] = [cc]; cfg["args"][a2 - 1]["cspell"] = forms[1]
+        if g.r.random() < 0.5:
+            cfg["args"][a3 - 1]["req"] = [cc]; cfg["args"][a3 - 1]["cspell"] = forms[2]
+        else:
+            cfg["args"][a3 - 1]["exc"] = [dd]; cfg["args"][a3 - 1]["cspell"] = forms[2]      # never broken: dd is not used behind a3
+        use = lambda i: [i, []] if cfg["args"][i - 1]["kind"] == "flag" else [i, [str(g.r.randint(0, 9))]]
+        acts = []
+        for order in ([a, a2, cc], [a2, a, cc], [cc, a, a2], [a, cc, a2], [a, a2, a3, cc], [a3, a2, cc, a], [dd, a3, a, a2, cc], [a2, cc], [cc, a], [cc], [dd, cc]):
+            line = [use(i) for i in order]
+            w = g.spell_line(cfg, line)
+            if w is not None:
+                acts.append(eval_action(w, tag={"k": "line", "line": line_json(line)}))
+                nsame += 1
+        blocks.append((cfg, acts))
+    c.notes.append("T1d: %d lines with several constraints naming one argument by different forms of its key" % nsame)
+    # T1e: webs of requires / excludes constraints (3-6 per handler, partner keys in every form), random subsets in random order
+    webs = constraint_web_blocks(g, 25 if tier == "quick" else 800)
+    blocks += webs
+    c.notes.append("T1e: %d lines in %d configurations with webs of argument constraints" % (sum(len(b[1]) for b in webs), len(webs)))
     # T2: long keys that are prefixes of each other, in every definition order, exact and abbreviated
     fam = [["in", "inp", "input"], ["out", "output", "output-file"], ["val", "value", "values"], ["n", "num", "number"]]
     for names in (fam if tier == "quick" else fam * 3):
